@@ -360,9 +360,16 @@ Definition qname (it : item) : str :=
   | None => ilocal it
   end.
 
-(** [escape]: single quotes when the value contains a double quote *)
+(** [quote_att_value] (fix a875701): single quotes when the value contains a double quote; when it
+    contains both quotation marks, double quotes with every double quote written as the
+    reference quot *)
+Definition s_quot : str := [38; 113; 117; 111; 116; 59].
 Definition escape (v : str) : str :=
-  if existsb (N.eqb c_dq) v then [c_sq] ++ v ++ [c_sq] else [c_dq] ++ v ++ [c_dq].
+  if existsb (N.eqb c_dq) v
+  then if existsb (N.eqb c_sq) v
+       then [c_dq] ++ flat_map (fun c => if c =? c_dq then s_quot else [c]) v ++ [c_dq]
+       else [c_sq] ++ v ++ [c_sq]
+  else [c_dq] ++ v ++ [c_dq].
 
 Fixpoint show_fuel (fuel : nat) (s : store) (n : id) : str :=
   match fuel with
